@@ -270,6 +270,33 @@ fn run_shard(ctx: &mut Ctx) {
             ctx.st.exhaustive_spaces.insert("S14^<=6".into(), total);
         }
     }
+    // boundary inputs the alphabets cannot reach: raw strings at the delimiter-length limits, long runs
+    if ctx.shard == 0 {
+        let mut items: Vec<String> = vec![];
+        for hashes in [0usize, 1, 2, 127, 128, 254, 255, 256, 257, 300] {
+            let h = "#".repeat(hashes);
+            for body in ["x", "", "a\nb", "é", "'", "\"#"] {
+                for q in ['\'', '"'] {
+                    items.push(format!("r{h}{q}{body}{q}{h}"));
+                    items.push(format!("x = r{h}{q}{body}{q}{h}\ny = 1\n"));
+                    items.push(format!("r{h}{q}{body}")); // unterminated
+                    items.push(format!("r{h}{q}{body}{q}{}", "#".repeat(hashes.saturating_sub(1)))); // one hash short
+                }
+            }
+        }
+        for n in [255usize, 256, 65535, 65536, 70000] {
+            items.push(format!("{}x", " ".repeat(n)));
+            items.push(format!("'{}'", "a".repeat(n)));
+            items.push(format!("#{}\nx", "c".repeat(n)));
+            items.push(format!("{}\nx", "\n".repeat(n.min(3000))));
+            items.push(format!("x{}", "y".repeat(n)));
+            items.push(format!("{}", "1".repeat(n.min(400))));
+        }
+        for s in items {
+            let case = json!({"kind": "text", "src": s});
+            ctx.run_case(&case, || eval_str(&s).class("boundary"));
+        }
+    }
     // (b) random token-shaped strings
     let n = ctx.tier.pick(200_000, 3_000_000);
     ctx.explore("random", n, &random_text(), |s| json!({"kind": "text", "src": s}), |s| eval_str(s).class("random"));
